@@ -296,43 +296,118 @@ func checkBodyWrites(r *Report, p *Prog) {
 		fc := a.Ctx(fn)
 		r.Fn(p.FnName(fn))
 		w := fn.Params[hasWriterParam(fn)]
+		wSlots := writerSlots(fn, w)
+		isW := func(v ssa.Value) bool {
+			v = rootIface(v)
+			if v == ssa.Value(w) {
+				return true
+			}
+			if ld, ok := v.(*ssa.UnOp); ok && ld.Op == token.MUL {
+				for _, s := range wSlots {
+					if ld.X == s {
+						return true
+					}
+				}
+			}
+			return false
+		}
+		type part struct {
+			v  ssa.Value
+			at ssa.Instruction
+		}
+		// the parts the written bytes are assembled from: the writes into a local buffer, the operands of
+		// slices.Concat / append
+		var partsOf func(v ssa.Value, at ssa.Instruction, depth int) ([]part, bool)
+		partsOf = func(v ssa.Value, at ssa.Instruction, depth int) ([]part, bool) {
+			if depth > 6 {
+				return nil, false
+			}
+			switch x := v.(type) {
+			case *ssa.Const:
+				return []part{{v, at}}, true
+			case *ssa.Convert:
+				if _, isC := x.X.(*ssa.Const); isC {
+					return []part{{x.X, at}}, true
+				}
+			case *ssa.Call:
+				if calleeIs(x, "(*bytes.Buffer).Bytes") || calleeIs(x, "(*bytes.Buffer).String") {
+					buf := rootOfAddr(x.Call.Args[0])
+					var out []part
+					for _, bb := range fn.Blocks {
+						for _, i2 := range bb.Instrs {
+							wc, ok := i2.(*ssa.Call)
+							if !ok || wc.Call.StaticCallee() == nil || len(wc.Call.Args) < 2 {
+								continue
+							}
+							nm := wc.Call.StaticCallee().String()
+							if !(nm == "(*bytes.Buffer).Write" || nm == "(*bytes.Buffer).WriteString") || rootOfAddr(wc.Call.Args[0]) != buf {
+								continue
+							}
+							ps, ok := partsOf(wc.Call.Args[1], i2, depth+1)
+							if !ok {
+								ps = []part{{wc.Call.Args[1], i2}}
+							}
+							out = append(out, ps...)
+						}
+					}
+					return out, len(out) > 0
+				}
+				if sc := x.Call.StaticCallee(); sc != nil && strings.HasPrefix(sc.String(), "slices.Concat") && len(x.Call.Args) == 1 {
+					if sl, ok := x.Call.Args[0].(*ssa.Slice); ok {
+						if al, ok := sl.X.(*ssa.Alloc); ok {
+							var out []part
+							for _, e := range arrayLiteralElems(al) {
+								ps, ok := partsOf(e, x, depth+1)
+								if !ok {
+									ps = []part{{e, x}}
+								}
+								out = append(out, ps...)
+							}
+							return out, len(out) > 0
+						}
+					}
+				}
+				if bi, ok := x.Call.Value.(*ssa.Builtin); ok && bi.Name() == "append" && len(x.Call.Args) == 2 {
+					var out []part
+					for _, e := range x.Call.Args {
+						if isNilConst(e) {
+							continue
+						}
+						ps, ok := partsOf(e, x, depth+1)
+						if !ok {
+							ps = []part{{e, x}}
+						}
+						out = append(out, ps...)
+					}
+					return out, len(out) > 0
+				}
+			}
+			return nil, false
+		}
 		for _, b := range fn.Blocks {
 			for _, in := range b.Instrs {
 				c, ok := in.(*ssa.Call)
-				if !ok || !c.Call.IsInvoke() || c.Call.Method.Name() != "Write" || rootIface(c.Call.Value) != ssa.Value(w) {
+				if !ok || !c.Call.IsInvoke() || c.Call.Method.Name() != "Write" || !isW(c.Call.Value) {
 					continue
 				}
 				n++
-				// the bytes written: Bytes() of a local buffer; examine that buffer's writers
 				arg := c.Call.Args[0]
-				bc, ok := arg.(*ssa.Call)
-				if !ok || !calleeIs(bc, "(*bytes.Buffer).Bytes") {
-					r.Bad(rule, p.FnName(fn)+": HTML body", p.InstrPos(in), "the bytes written to the HTML response do not come from a local buffer: "+fc.AP(arg))
-					continue
+				parts, ok := partsOf(arg, in, 0)
+				if !ok {
+					parts = []part{{arg, in}}
 				}
-				buf := rootOfAddr(bc.Call.Args[0])
-				for _, bb := range fn.Blocks {
-					for _, i2 := range bb.Instrs {
-						wc, ok := i2.(*ssa.Call)
-						if !ok || wc.Call.StaticCallee() == nil || len(wc.Call.Args) < 2 {
-							continue
-						}
-						nm := wc.Call.StaticCallee().String()
-						if !(nm == "(*bytes.Buffer).Write" || nm == "(*bytes.Buffer).WriteString") || rootOfAddr(wc.Call.Args[0]) != buf {
-							continue
-						}
-						src := wc.Call.Args[1]
-						cons := fmt.Sprintf("%s: HTML body part %s", p.FnName(fn), fc.AP(src))
-						if _, isConst := src.(*ssa.Const); isConst {
-							r.Trivial(rule, cons, p.InstrPos(i2), "constant markup")
-							continue
-						}
-						okSrc := false
-						if sc, ok := src.(*ssa.Call); ok && sc.Call.StaticCallee() != nil && p.InLibrary(sc.Call.StaticCallee()) && formRenderer(p, sc.Call.StaticCallee(), 0) {
-							okSrc = true
-						}
-						r.Check(okSrc, rule, cons, p.InstrPos(i2), "output of an executed html/template", "bytes that are not the output of an html/template are written into the HTML response")
+				for _, pt := range parts {
+					src := pt.v
+					cons := fmt.Sprintf("%s: HTML body part %s", p.FnName(fn), fc.AP(src))
+					if _, isConst := src.(*ssa.Const); isConst {
+						r.Trivial(rule, cons, p.InstrPos(pt.at), "constant markup")
+						continue
 					}
+					okSrc := false
+					if sc, ok := src.(*ssa.Call); ok && sc.Call.StaticCallee() != nil && p.InLibrary(sc.Call.StaticCallee()) && formRenderer(p, sc.Call.StaticCallee(), 0) {
+						okSrc = true
+					}
+					r.Check(okSrc, rule, cons, p.InstrPos(pt.at), "output of an executed html/template", "bytes that are not the output of an html/template are written into the HTML response")
 				}
 			}
 		}
